@@ -886,7 +886,7 @@ class Interp:
             self.depth -= 1
         return NONE
 
-    def run_function_from(self, live, start_at, local_values):
+    def run_function_from(self, live, start_at, local_values, stop_at=None):
         """execute the tail of a function starting at the statement `start_at` (a top-level
         statement of its body) from the given locals: second half of a cut-point proof"""
         fnode, mod = func_node(live)
@@ -897,13 +897,21 @@ class Interp:
         frame.locals.update(local_values)
         key = f"{mod.__name__}:{live.__qualname__}"
         self.functions_entered[key] = self.functions_entered.get(key, 0) + 1
+        stmts = fnode.body[k:]
+        if stop_at is not None:
+            k2 = find_stmt(fnode.body, stop_at)
+            if k2 is None or k2 < k:
+                raise Unsupported(f"stop point not found in {fnode.name}: {stop_at!r}")
+            stmts = fnode.body[k:k2]
         self.depth += 1
         try:
-            self.exec_block(fnode.body[k:], frame)
+            self.exec_block(stmts, frame)
         except ReturnSig as r:
             return r.value
         finally:
             self.depth -= 1
+        if stop_at is not None:
+            raise CutReached(frame)
         return NONE
 
     def call_closure(self, f, args, kwargs):
